@@ -978,6 +978,9 @@ func (f *fsm) established() (fsmState, error) {
 	}
 
 	to, err := established()
+	// wait for the keepalive manager to exit: it reads the FSM's hold time and
+	// keepalive timer, which the next session on this FSM overwrites
+	<-kaManagerDoneCh
 	f.cleanupConnAndReader()
 	f.holdTimer.Stop()
 	f.keepAliveTimer.Stop()
